@@ -230,11 +230,11 @@ class Engine:
 
 
 class _NestedImports(ast.NodeTransformer):
-    """function-level 'from ..emas import ema_grouped' -> 'ema_grouped = __shadow_get("emas", "ema_grouped")'"""
+    """function-level 'from ..emas import ema_grouped' -> 'ema_grouped = shadow_get_nested_("emas", "ema_grouped")'"""
     def __init__(self, engine, sm):
         self.engine = engine
         self.sm = sm
-        sm.ns["__shadow_get"] = self._get
+        sm.ns["shadow_get_nested_"] = self._get
 
     def _get(self, mod, name):
         key = {"..emas": "emas", "groupby_lib.emas": "emas", "..util": "util", "groupby_lib.util": "util"}.get(mod)
@@ -250,7 +250,7 @@ class _NestedImports(ast.NodeTransformer):
             for name, asn in v.args[1].value:
                 out.append(ast.copy_location(ast.Assign(
                     targets=[ast.Name(id=asn, ctx=ast.Store())],
-                    value=ast.Call(func=ast.Name(id="__shadow_get", ctx=ast.Load()),
+                    value=ast.Call(func=ast.Name(id="shadow_get_nested_", ctx=ast.Load()),
                                    args=[ast.Constant(mod), ast.Constant(name)], keywords=[])), node))
             return out
         return node
